@@ -35,6 +35,41 @@ Example C01_roundtrip_nonvacuous :
             forall f, f >= 8 -> unm toy_rt toy_env f (TName 3) w = Ok toy_value.
 Proof. split; [exact toy_laws | exact toy_roundtrip_instance]. Qed.
 
+(* The weak form, with no unambiguity hypothesis: whenever the local fixpoint holds at each union position
+   (fix_ok checks it there by evaluation; this is the region the open finding C01-union-fixpoint-noncanonical
+   lives in) it holds for the whole value, through any nesting of containers, classes and wrappers:
+   marshal (unmarshal m) = m for m = marshal v. *)
+Theorem C01_union_fixpoint : forall rt lv E, RoundLaws rt lv ->
+  forall n fuel T v m, fuel <= n -> fix_ok rt lv E n T v = true -> mar rt E fuel T v = Ok m ->
+  exists v', (forall f, f >= n -> unm rt E f T m = Ok v') /\ (forall f, f >= n -> mar rt E f T v' = Ok m).
+Proof. intros rt lv E L n fuel T v m Hle Hv Hm. exact (fixpoint_fuel rt lv E L n fuel T v m Hle Hv Hm). Qed.
+
+(* an ambiguous union (int("5") accepts the str "5") inside a list: not unambiguous, fixpoint holds *)
+Example C01_union_fixpoint_nonvacuous :
+  let T := TSeq KList (TUnion [TLeaf 1; TLeaf 2]) in
+  let v := PSeq KList [PAtom 2; PAtom 4] in
+  let m := PSeq KList [PAtom 1; PAtom 4] in
+  union_unamb toy_rt toy_lv toy_env 3 (TUnion [TLeaf 1; TLeaf 2]) (PAtom 2) = false /\
+  fix_ok toy_rt toy_lv toy_env 4 T v = true /\
+  mar toy_rt toy_env 4 T v = Ok m /\
+  unm toy_rt toy_env 4 T m = Ok m.
+Proof. exact toy_fixpoint_instance. Qed.
+
+(* the statement's weak form without fix_ok is refuted: Union[date, str] and "2020-01-01T00:00:00" *)
+Theorem C01_refuted_fixpoint_noncanonical :
+  exists rt lv E n T v m v' m', RoundLaws rt lv /\
+    valid rt lv E n T v = true /\ stmt_unamb rt lv E n T v = false /\ fix_ok rt lv E n T v = false /\
+    mar rt E n T v = Ok m /\ unm rt E n T m = Ok v' /\ mar rt E n T v' = Ok m' /\ m' <> m.
+Proof. exact refute_fixpoint_noncanonical. Qed.
+
+(* c01_guard's only demand (marshalled mapping keys stay pairwise distinct under Python ==) follows, for a
+   key type that is a leaf behind transparent wrappers (U: "mappings with scalar K"), from the leaf law
+   leaf_m_inj. *)
+Theorem C01_keys_of_leaf_law : forall rt lv E, leaf_m_inj rt lv ->
+  forall n kt s keys ws, key_leaf E n kt = Some s -> forallb (valid rt lv E n kt) keys = true ->
+  nodup_from rt [] keys = true -> mapM (mar rt E n kt) keys = Ok ws -> nodup_from rt [] ws = true.
+Proof. intros rt lv E Inj n kt s keys ws. exact (keys_of_leaf_law rt lv E Inj n kt s keys ws). Qed.
+
 (* more fuel never changes a terminal result *)
 Theorem C01_fuel_unm : forall rt E n m T x v, n <= m -> unm rt E n T x = Ok v -> unm rt E m T x = Ok v.
 Proof. intros rt E n m T x v H Hu. exact (le_res_ok _ _ v (unm_ge rt E n m T x H) Hu). Qed.
@@ -52,6 +87,9 @@ Theorem C01_refuted_union_foreign_marshaller :
 Proof. exact refute_union_foreign_marshaller. Qed.
 
 Print Assumptions C01_roundtrip.
+Print Assumptions C01_union_fixpoint.
+Print Assumptions C01_refuted_fixpoint_noncanonical.
+Print Assumptions C01_keys_of_leaf_law.
 Print Assumptions C01_fuel_unm.
 Print Assumptions C01_fuel_mar.
 Print Assumptions C01_refuted_full.
